@@ -1,4 +1,6 @@
-(* C07 - results and final memory do not depend on engine or storage layout.  Statements only. *)
+(* C07 - results and final memory do not depend on engine or storage layout.  Statements only.
+   The refinement theorems of the native engine's storage layouts and loops are in Properties/C01_native.v
+   (C07_native_layout_independent, C07_native_loops_ok, C07_native_decide_storage, C01_native_ring_readout). *)
 From FJ Require Import Lib.Base Spec.MachineSpec Proofs.MachineProps.
 
 Theorem C07_halting_result_unique :
